@@ -106,6 +106,28 @@ class HashVal:
 _PY_TYPE = {"str": str, "int": int, "bool": bool, "none": type(None)}
 
 
+class EnvTwin:
+    """Environment: the node NODE_REGISTRY holds under the (symbolic) id that is being computed.
+    Nothing is known about it except that its id equals the key; whether it is of the same class
+    as `self` is another environment decision.  Its content_id is the digest that node computed
+    for its own content (TwinContent) -- the obligation built from it asks the solver whether a
+    node with the same id pre-image can have another content pre-image."""
+
+    def __init__(self, key: Any):
+        self.key = key
+
+
+class EnvMiss:
+    """Environment: the registry holds nothing under the key (behaves like None)."""
+
+
+class TwinContent:
+    """content_id of the EnvTwin."""
+
+
+ENV_MISS = EnvMiss()
+
+
 def sym_to_str(v: SymVal) -> SymStr:
     if v.kind == "none":
         return SymStr([("lit", "None")])
@@ -174,6 +196,11 @@ class Evaluator:
         self.assumed: list[str] = []
         self.inlined: list[str] = []
         self.depth = 0
+        # environment decisions (registry lookups under a symbolic key): answered from `oracle`
+        # in order, False beyond its end; env_touch counts evaluations that met an env value
+        self.oracle: list[bool] = []
+        self.env_trace: list[tuple[str, bool]] = []
+        self.env_touch = 0
 
     # ------------------------------------------------------------------ run
     def run(self) -> None:
@@ -197,7 +224,14 @@ class Evaluator:
             cur = self.expr(_load(n.target))
             self.assign(n.target, self.add(cur, self.expr(n.value), n))
         elif isinstance(n, ast.If):
+            touched = self.env_touch
             test = self.expr(n.test)
+            if isinstance(test, (EnvMiss,)):
+                test = None
+            if self.env_touch > touched and "content_id" in self.self_obj.recorded and isinstance(self.env.get("new_id"), HashVal):
+                # registry-dependent branching after both pre-images are known: the id suffix logic
+                self.self_obj.recorded["id"] = self.env["new_id"]
+                raise _Stop()
             if self._symbolic(test):
                 if "content_id" in self.self_obj.recorded and isinstance(self.env.get("new_id"), HashVal):
                     self.self_obj.recorded["id"] = self.env["new_id"]
@@ -241,6 +275,26 @@ class Evaluator:
             raise Unencodable(f"assignment target {type(target).__name__}", target)
 
     # ----------------------------------------------------------- expressions
+    def decide(self, question: str) -> bool:
+        k = len(self.env_trace)
+        ans = self.oracle[k] if k < len(self.oracle) else False
+        self.env_trace.append((question, ans))
+        self.env_touch += 1
+        return ans
+
+    @staticmethod
+    def _is_registry(obj: Any) -> bool:
+        try:
+            from pyoak.node import NODE_REGISTRY
+        except Exception:  # noqa: BLE001
+            return False
+        return obj is NODE_REGISTRY
+
+    def _lookup(self, key: Any) -> Any:
+        if self.decide("the registry holds a node under the id being computed"):
+            return EnvTwin(key)
+        return ENV_MISS
+
     def _symbolic(self, v: Any) -> bool:
         return isinstance(v, (SymVal, SymStr, SymLen, SymBytes, HashObj, HashVal, AbsSelf, AbsChild, AbsOrigin, _SymTest))
 
@@ -260,6 +314,8 @@ class Evaluator:
             return n.value
         if isinstance(n, ast.Name):
             if n.id in self.env:
+                if isinstance(self.env[n.id], (EnvTwin, EnvMiss, TwinContent)):
+                    self.env_touch += 1
                 return self.env[n.id]
             if n.id in self.globals:
                 return self.globals[n.id]
@@ -309,6 +365,11 @@ class Evaluator:
         if isinstance(n, ast.Compare):
             left = self.expr(n.left)
             rights = [self.expr(c) for c in n.comparators]
+            if len(rights) == 1 and isinstance(n.ops[0], (ast.In, ast.NotIn)) and self._is_registry(rights[0]) and isinstance(left, (HashVal, SymStr)) and "content_id" not in self.self_obj.recorded:
+                hit = self.decide("the registry holds a node under the id being computed")
+                return hit if isinstance(n.ops[0], ast.In) else not hit
+            left = None if isinstance(left, EnvMiss) else left
+            rights = [None if isinstance(r, EnvMiss) else r for r in rights]
             if any(isinstance(x, (HashVal, SymStr, SymVal)) for x in [left, *rights]):
                 return _SymTest()
             res = True
@@ -334,7 +395,12 @@ class Evaluator:
             base = self.expr(n.value)
             if self._symbolic(base):
                 raise Unencodable("subscript of a symbolic value", n)
-            return base[self.expr(n.slice)]
+            key = self.expr(n.slice)
+            if self._is_registry(base) and isinstance(key, (HashVal, SymStr)):
+                # a subscript is only reached where the code already established the hit
+                self.env_touch += 1
+                return EnvTwin(key)
+            return base[key]
         raise Unencodable(f"expression {type(n).__name__}", n)
 
     def to_str(self, v: Any, conversion: int, n: ast.AST) -> Any:
@@ -357,9 +423,24 @@ class Evaluator:
         return str(v)
 
     def getattr(self, base: Any, attr: str, n: ast.AST) -> Any:
+        if isinstance(base, EnvMiss):
+            raise Unencodable(f"attribute {attr} of a registry miss (None)", n)
+        if isinstance(base, EnvTwin):
+            self.env_touch += 1
+            if attr == "__class__":
+                if not hasattr(base, "same_class"):
+                    base.same_class = self.decide("the registered node is of the class under construction")
+                return self.getattr(self.self_obj, "__class__", n) if base.same_class else _ClassProxy(object)
+            if attr == "content_id":
+                return TwinContent()
+            if attr == "id":
+                return base.key
+            raise Unencodable(f"attribute {attr} of the registered node is not modelled", n)
         if isinstance(base, AbsSelf):
             if attr == "__class__":
-                return _ClassProxy(base.cls)
+                if not hasattr(base, "_proxy"):
+                    base._proxy = _ClassProxy(base.cls)
+                return base._proxy
             if attr in ("get_properties", "get_child_nodes_with_field"):
                 return getattr(base, attr)
             if attr == "origin":
@@ -391,6 +472,18 @@ class Evaluator:
             return HashVal(fn[1].pre, fn[1].digest_size)
         import hashlib
 
+        if getattr(fn, "__name__", "") == "get" and self._is_registry(getattr(fn, "__self__", None)) and args and isinstance(args[0], (HashVal, SymStr)):
+            hit = self._lookup(args[0])
+            if isinstance(hit, EnvMiss) and len(args) > 1 and args[1] is not None:
+                return args[1]
+            return hit
+        if fn is type and len(args) == 1 and isinstance(args[0], EnvTwin):
+            return self.getattr(args[0], "__class__", n)
+        if fn is isinstance and len(args) == 2 and isinstance(args[0], (EnvTwin, EnvMiss)):
+            if isinstance(args[0], EnvMiss):
+                return False
+            proxy = self.getattr(args[0], "__class__", n)
+            return proxy is self.getattr(self.self_obj, "__class__", n) and args[1] is proxy
         if fn is hashlib.blake2b or getattr(fn, "__name__", "") == "blake2b":
             if len(args) == 1 and isinstance(args[0], SymBytes):
                 return HashObj(args[0].s, kwargs.get("digest_size"))
@@ -413,6 +506,8 @@ class Evaluator:
             return SymLen(args[0])
         if fn is object.__setattr__ and len(args) == 3 and isinstance(args[0], AbsSelf):
             args[0].recorded[args[1]] = args[2]
+            if args[1] == "content_id":
+                args[0].recorded["__env_at_content_id__"] = len(self.env_trace)
             return None
         if any(self._symbolic(a) for a in args) or any(self._symbolic(v) for v in kwargs.values()):
             target = getattr(fn, "__wrapped__", fn)  # functools wrappers (lru_cache ...): treated as pure
@@ -488,9 +583,29 @@ class PreImages:
     constructs: list[str]
     inlined: list[str] = field(default_factory=list)
     assumed: list[str] = field(default_factory=list)
+    # registry lookups met before content_id was assigned, and what content_id then is:
+    # "own" (digest of this node's content pre-image) | "twin" (copied from the registered node
+    # found under this node's id, of the same class) | "unknown"
+    env_trace: list[tuple[str, bool]] = field(default_factory=list)
+    content_kind: str = "own"
 
 
-def preimages(cls: type, skeleton: Any, kinds: dict[str, str], tag: str) -> PreImages:
+def preimage_variants(cls: type, skeleton: Any, kinds: dict[str, str], tag: str, max_runs: int = 16) -> list[PreImages]:
+    """One PreImages per answer vector of the environment (registry) decisions that the code
+    consults before it assigns content_id; a single element when it consults none."""
+    out: list[PreImages] = []
+    stack: list[list[bool]] = [[]]
+    while stack and len(out) < max_runs:
+        oracle = stack.pop()
+        p = preimages(cls, skeleton, kinds, tag, oracle=oracle)
+        out.append(p)
+        for k in range(len(oracle), len(p.env_trace)):
+            if p.env_trace[k][1] is False:
+                stack.append([a for _, a in p.env_trace[:k]] + [True])
+    return out
+
+
+def preimages(cls: type, skeleton: Any, kinds: dict[str, str], tag: str, oracle: list[bool] | None = None) -> PreImages:
     """Symbolically evaluate the CURRENT ASTNode.__post_init__ for class `cls`.
 
     skeleton: a real instance of cls with the wanted child layout (children present /
@@ -508,13 +623,26 @@ def preimages(cls: type, skeleton: Any, kinds: dict[str, str], tag: str) -> PreI
         CODEGEN_DEBUG = False
 
     ev = Evaluator(ASTNode.__post_init__, me, overrides={"config": _Cfg})
+    ev.oracle = list(oracle or [])
+    # decisions taken before content_id is assigned are what the content digest can depend on
+    orig_setattr_seen: list[int] = []
     ev.run()
     if "content_id" not in me.recorded or "id" not in me.recorded:
         raise Unencodable("evaluation ended before both digests were assigned")
     cid, nid = me.recorded["content_id"], me.recorded["id"]
-    if not isinstance(cid, HashVal) or not isinstance(nid, HashVal):
-        raise Unencodable("content_id / id are not digests of an encodable pre-image")
-    return PreImages(cls, tag, props, dict(me.children), me.origin.fqn, cid.pre, nid.pre, cid.digest_size, list(me.calls), sorted(ev.constructs), list(dict.fromkeys(ev.inlined)), list(dict.fromkeys(ev.assumed)))
+    if not isinstance(nid, HashVal):
+        raise Unencodable("id is not the digest of an encodable pre-image")
+    _ = orig_setattr_seen
+    if isinstance(cid, HashVal):
+        kind, content, size = "own", cid.pre, cid.digest_size
+    elif isinstance(cid, TwinContent):
+        kind, content, size = "twin", SymStr([]), nid.digest_size
+    elif oracle is not None and ev.env_trace:
+        kind, content, size = "unknown", SymStr([]), nid.digest_size
+    else:
+        raise Unencodable("content_id is not the digest of an encodable pre-image")
+    pre_trace = list(ev.env_trace[: me.recorded.get("__env_at_content_id__", len(ev.env_trace))])
+    return PreImages(cls, tag, props, dict(me.children), me.origin.fqn, content, nid.pre, size, list(me.calls), sorted(ev.constructs), list(dict.fromkeys(ev.inlined)), list(dict.fromkeys(ev.assumed)), pre_trace, kind)
 
 
 def free_vars(s: SymStr) -> list[SymVal]:
